@@ -492,17 +492,22 @@ PROPS["C01"]["level_text"] = (
 PROPS["C28"] = {
     "title": "Vacuum preserves the database",
     "kani": [],
-    "e2": ["c28"],
-    "functions_encoded": ["csr::encode_meta", "vacuum::mark_csr_segment_pages"],
+    "e2": ["c28", "c01", "pager"],
+    "functions_encoded": ["csr::encode_meta", "vacuum::mark_csr_segment_pages", "vacuum::scan_wal_roots", "pager::Pager::write_vacuum_copy"],
     "bounds": {"segment meta": "blob page-id lists of (1,1,1,1), (1,0,0,0) (quick) and (2,2,1,2) (thorough) entries, page ids symbolic in [2, 65536); "
-               "all other header fields symbolic", "image": "8192-byte page as 8-bit terms at concrete positions"},
-    "stubs": ["Cursor::write_all / to_le_bytes / slice iteration (writer) and Pager::read_page / slice indexing / try_into / from_le_bytes / "
+               "all other header fields symbolic", "image": "8192-byte page as 8-bit terms at concrete positions",
+               "WAL roots": "committed sequences of 2 transactions x 2 records (3 x 2 thorough) over {graph op, ManifestSwitch(epoch 0..3), Checkpoint(epoch 0..3)}",
+               "vacuum copy": "reachable = {0, 1} + 0 / 2 (3 thorough) symbolic strictly increasing data pages in [2, 15]"},
+    "stubs": ["vacuum copy: File/OpenOptions = in-memory page store, Meta::encode_page opaque, BTreeSet iteration = the sorted list; "
+              "Cursor::write_all / to_le_bytes / slice iteration (writer) and Pager::read_page / slice indexing / try_into / from_le_bytes / "
               "Range iteration / BTreeSet::insert (reader) modelled on the byte image"],
     "assumptions": ["page ids are non-zero (the reader skips zero ids by design)"],
-    "outside_claim": ["catalog / B-tree / blob-chain traversal of vacuum, write_vacuum_copy, the rename protocol, usability after vacuum beyond the witness"],
-    "level_text": "Partial (segment-layout agreement): path-wise symbolic execution (z3) of the real CSR meta-page writer and of vacuum's "
+    "outside_claim": ["catalog / B-tree / blob-chain traversal of vacuum, the rename protocol, usability after vacuum beyond the witness"],
+    "level_text": "Partial (segment-layout agreement, root selection, allocator state of the copy): path-wise symbolic execution (z3) of the real CSR meta-page writer and of vacuum's "
                   "reader on the same symbolic byte image: vacuum accepts the page and marks every forward- and reverse-index page the "
-                  "writer listed as reachable. Counterexamples are replayed through compact() + vacuum() + reopen.",
+                  "writer listed as reachable; vacuum's WAL scan chooses the latest ManifestSwitch with the greatest epoch and the roots "
+                  "recovery would choose; the copy's bitmap marks exactly the live pages and its next_page_id lies above all of them. "
+                  "Counterexamples of the layout obligation are replayed through compact() + vacuum() + reopen.",
     "level_note": "Trusted: rustc MIR dump, E2 translator and byte-image models, z3.",
     "design_ref": "DESIGN.md section 3, C28 and section 7",
 }
